@@ -178,6 +178,8 @@ func c10Spec(ws []wrapper, d []byte) c10Expect {
 }
 
 type c10Case struct {
+	// History: inputs parsed before with the SAME parser object (one is built per wrapper assignment)
+	History  []string  `json:"inputs_parsed_before_with_this_parser,omitempty"`
 	Alt      bool      `json:"lenient_lookahead_alternative,omitempty"`
 	Wrappers []wrapper `json:"-"`
 	W        []string  `json:"wrappers"`
@@ -199,6 +201,9 @@ func mkCase(ws []wrapper, input string, alt bool) c10Case {
 	}
 	return c
 }
+
+// c10History: the inputs the current parser object has parsed so far (reset whenever a new parser is built)
+var c10History []string
 
 func c10One(res *explore.Result, ws []wrapper, p parsley.Parser, input string, alt bool, verbose bool) {
 	raw := []byte(input)
@@ -223,6 +228,11 @@ func c10One(res *explore.Result, ws []wrapper, p parsley.Parser, input string, a
 		where = fmt.Sprintf("Sentence(SeqOf(Any(SeqOf('a', LeftTrim('b',WsSpacesNl), LeftTrim('c',WsSpacesNl)), %s), %s)) on %s", names[0], names[1], q(input))
 	}
 	cs := mkCase(ws, input, alt)
+	cs.History = append([]string{}, c10History...)
+	c10History = append(c10History, strconv.Quote(input))
+	if len(c10History) > 40 {
+		c10History = c10History[len(c10History)-40:]
+	}
 	if pm := guard(func() { node, err = parsley.Parse(ctx, p) }); pm != "" {
 		res.Violate("panic", where+": "+pm, cs)
 		return
@@ -310,6 +320,7 @@ func c10Run(env *explore.Env) *explore.Result {
 				if pl.alt {
 					p = buildSeqAlt(ws)
 				}
+				c10History = nil
 				res.Add("states", 1)
 				gaps := make([]string, pl.k+1)
 				var recG func(g int)
@@ -383,6 +394,12 @@ func c10Replay(raw json.RawMessage) *explore.Result {
 	p := buildSeq(ws)
 	if c.Alt && len(ws) == 2 {
 		p = buildSeqAlt(ws)
+	}
+	c10History = nil
+	for _, h := range c.History {
+		if hin, err := strconv.Unquote(h); err == nil {
+			c10One(explore.NewResult(), ws, p, hin, c.Alt, false) // re-create what the parser object has seen
+		}
 	}
 	c10One(res, ws, p, in, c.Alt, true)
 	return res
